@@ -17,6 +17,7 @@ import warnings
 
 warnings.simplefilter("ignore")
 os.environ.setdefault("MPLBACKEND", "Agg")
+os.environ.setdefault("TQDM_DISABLE", "1")
 HERE = os.path.dirname(os.path.abspath(__file__))
 ROOT = os.path.dirname(HERE)
 sys.path.insert(0, HERE)
@@ -127,7 +128,7 @@ def conclude(prop, ctx, res, level="model_checking", rule="", clause_prefix=None
     seen = {}
     nviol = 0
     for v, tr in violations:
-        key = (v["clause"], v["op"])
+        key = (v["clause"], v["op"] if not str(v["op"]).startswith("system ") else "")
         nviol += 1
         seen[key] = seen.get(key, 0) + 1
         if seen[key] > 2:      # at most two replay files per (clause, call) pair
@@ -185,7 +186,7 @@ def registry():
 
     reg = {}
     reg.update(props_edit.REGISTRY)
-    for mod in ("props_solve", "props_misc"):
+    for mod in ("props_solve", "props_misc", "props_struct"):
         try:
             m = __import__(mod)
             reg.update(m.REGISTRY)
